@@ -21,6 +21,21 @@ BOUNDARY = [b"0", b"-1", b"99999999999999999999", b"1e999", b"00", b"255", b"", 
 JUNK = [b"\x00", b"\xff\xfe", b"<", b">", b"&", b"-->", b"{\\an8}", b"</b>", b"<i>", b"\t", b"%", b"\xe2\x80\xa8", b"[", b"\"", b"'"]
 
 
+# format-aware junk: legal-looking tokens of the format dropped where they make no sense
+JUNK_BY_FMT = {
+  "srt": [b"<![foo[", b"<font color>", b"<font color=\"\">", b"<!DOCTYPE x [", b"<?pi", b"</font>", b"{\\i}", b"<b", b"00:00:01,000 --> 00:00:02",
+          b"--> ", b"<font face=\"x\">"],
+  "vtt": [b"<rt>", b"</ruby>", b"<ruby>", b"<c.>", b"<v>", b"<lang>", b"<00:00:01.000>", b"<99:99:99.999>", b"&#x110000;", b"&#xD800;", b"NOTE", b"STYLE",
+          b"REGION", b"line:abc", b"position:200%", b"size:-1%", b"align:", b"vertical:xx", b"00:00.000 --> 00:01.000 line:0", b"-->"],
+  "scc": [b"94a1 94a1", b"1220 1220", b"9724 9724", b"942f", b"94ad 94ad", b"9425 9425", b"9429 9429", b"9420 9420", b"97a1", b"zzzz", b"94", b"942c942c",
+          b"00:00:00:00\t", b"99:99:99;99\t9420", b"1c20 1c20", b"91b0"],
+  "ttml": [b"tts:color=\"\"", b"begin=\"\"", b"style=\"s1 s1 sX\"", b"region=\"nope\"", b"tts:fontSize=\"1em 2em 3em\"", b"xml:space=\"x\"",
+           b"timeContainer=\"x\"", b"tts:textShadow=\"1px\"", b"tts:extent=\"auto\"", b"ttp:frameRate=\"0\"", b"ttp:cellResolution=\"0 0\"",
+           b"<set/>", b"<span/>", b"<br>x</br>", b"<p><p/></p>", b"tts:ruby=\"text\"", b"tts:position=\"left\"", b"end=\"-1s\"", b"dur=\"1e3s\""],
+  "stl": [b"\x8f" * 16, b"\x8a" * 16, b"\xff" * 16, b"\x00" * 16, b"STL99.01" + b" " * 8, b"\xc1" * 16, b"\x0b\x0b\x0a\x0a" * 4],
+}
+
+
 def _split(data: bytes, unit: str, fmt: str):
   if fmt == "stl" and unit in ("line", "token"):
     # binary: "line" = TTI/GSI block (GSI 1024 bytes, TTI 128 bytes each), "token" = 16-byte field-ish chunk
@@ -66,7 +81,12 @@ def apply_fault(data: bytes, fault, fmt: str, rng) -> bytes:
     eol = b"\n" if parts[i].endswith(b"\n") else b""
     parts[i] = eol if fault["unit"] == "line" else b""
   elif kind == "junk":
-    parts[i] = rng.choice(JUNK) + (b"\n" if parts[i].endswith(b"\n") else b"")
+    pool = JUNK + JUNK_BY_FMT.get(fmt, []) * 2
+    junk = rng.choice(pool)
+    if fault["unit"] == "token" and fmt != "stl" and rng.random() < 0.5:
+      parts[i] = parts[i] + b" " + junk               # inserted next to the token rather than replacing it
+    else:
+      parts[i] = junk + (b"\n" if parts[i].endswith(b"\n") else b"")
   elif kind == "boundary":
     # replace the first number in the unit by a boundary value (or the unit itself when it has none)
     val = rng.choice(BOUNDARY)
